@@ -87,7 +87,8 @@ def main():
         # one VIOLATION line per unit and failed function: the most telling failure first
         groups = {}
         for spec, r, f in violations:
-            groups.setdefault((r.name, f.get('function') if not r.engine.startswith('bx') else ''), []).append((spec, r, f))
+            per_fn = r.engine.startswith('verus')
+            groups.setdefault((r.name, f.get('function') if per_fn else ''), []).append((spec, r, f))
         for key, lst in groups.items():
             lst.sort(key=lambda x: P.rank(pid, x[2]))
             spec, r, f = lst[0]
